@@ -205,13 +205,16 @@ PROPS = {
                      {"name": "fleet-converge", "weight": 1, "race": True, "chunk": 40, "env": {"LSSIM_KEEP_HEALTH": 1, "LSSIM_PROPERTY": "C17"}},
                      {"name": "fleet-delete", "weight": 1, "race": True, "chunk": 40, "env": {"LSSIM_KEEP_HEALTH": 1, "LSSIM_PROPERTY": "C17"}},
                      {"name": "conc-sim", "weight": 1, "chunk": 1},
-                     {"name": "fleet-bucket", "weight": 1, "env": {"LSSIM_PROPERTY": "C17"}}],
+                     {"name": "fleet-bucket", "weight": 1, "env": {"LSSIM_PROPERTY": "C17"}},
+                     {"name": "conc-inst", "weight": 1, "chunk": 1, "env": {"LSSIM_MIN_TRIALS": 0}}],
         "quick_s": 60,
         "rule": "race part: the fleet-bucket (cleaners on, crashes, faults), fleet-converge and fleet-delete (tomb sweeper on in a third of the runs) profiles run in the -race build with the health tracker goroutines left running; the scheduler hides its own hand-off from the detector "
                 "(runtime.RaceDisable around park/release), so each run is a happens-before race check of exactly the interleaving it executed; only reports in which at least one of the two "
                 "conflicting accesses is made by repository code count; deadlock part (conc-sim): seeded API-level schedules over utils/topics (publish, subscribe, next, close incl. close "
                 "while a publish to that subscriber is in flight, failing Handle callback), utils/climit (release from any goroutine, repeatedly) and snapshot/storage (GetGlobal before, "
-                "after and concurrent with SetGlobal) with real goroutines outside the bubble; after every schedule whose subscriptions were all drained or closed and tokens released, no "
+                "after and concurrent with SetGlobal) with real goroutines outside the bubble; conc-inst runs the same schedules in a binary built from a scratch copy of /repo's working tree "
+                "in which utils/climit, utils/topics and snapshot/storage carry a yield before every statement (go/ast rewriting at build time): the tape also decides, statement by statement, "
+                "which goroutine inside these primitives moves next, so atomicity violations without a data race (two goroutines inside Token.Release at once) are reachable and replayable; after every schedule whose subscriptions were all drained or closed and tokens released, no "
                 "actor may remain blocked (goroutine stacks are inspected) or have panicked; cancellation part: in all fleet runs of this check graceful context cancels are generated harness "
                 "actions (10-25 permille of steps, at whatever yield the node's goroutines are parked, also during start-up and under storage faults); after one, the sync loop may pass at most 150 "
                 "further yield points and may not stay blocked outside a yield for 300 scheduler steps and 30 simulated seconds before Sync has returned; only C17 oracles count in these runs; non-trivial = the run executed at least two concurrent actors; distinct = distinct SHA-256 "
@@ -233,7 +236,9 @@ PROPS = {
     },
 }
 
-ALL_PROFILES = sorted({p["name"] for c in PROPS.values() for p in c["profiles"]})
+# conc-inst is not part of the determinism self-test: between its yields it
+# runs on the real Go runtime (see DESIGN.md 9.3b)
+ALL_PROFILES = sorted({p["name"] for c in PROPS.values() for p in c["profiles"]} - {"conc-inst"})
 
 
 SIM_NOTE = ("Assumes: LMDB's own durability/isolation (real LMDB, no torn pages), the yield points as the granularity of interleaving "
